@@ -154,6 +154,38 @@ def parseRefLt (s : List Char) : Option (Lt × List Char) :=
       | _ => none
   | _ => some (.elided, s)
 
+/-- `('extern "' abi '" ')? 'fn('` -/
+def parseAbiFn (s : List Char) : Option (Abi × List Char) :=
+  let a : Option (Abi × List Char) := match dropPrefix? "extern \"".toList s with
+    | some r =>
+        let p := spanP (fun c => c != '"') r
+        match dropPrefix? "\" ".toList p.2 with
+        | some r1 => some (abiOfStr p.1, r1)
+        | none => none
+    | none => some (.rust, s)
+  match a with
+  | none => none
+  | some (abi, s2) =>
+    match dropPrefix? "fn(".toList s2 with
+    | none => none
+    | some r => some (abi, r)
+
+/-- `('unsafe ')? ('extern "' abi '" ')? 'fn('` -/
+def parseFnPrefix (s : List Char) : Option ((Bool × Abi) × List Char) :=
+  match dropPrefix? kwUnsafe s with
+  | some r =>
+      match parseAbiFn r with
+      | some (abi, r1) => some ((true, abi), r1)
+      | none => none
+  | none =>
+      match parseAbiFn s with
+      | some (abi, r1) => some ((false, abi), r1)
+      | none => none
+
+def startsWithRParen : List Char → Bool
+  | ')' :: _ => true
+  | _ => false
+
 /-- One generic argument. -/
 inductive PArg where
   | ty (t : Ty) | lt (l : GLt) | const (v : String)
@@ -328,25 +360,12 @@ def parseInsTail : Nat → List Char → Option (FnIns × List Char)
 def parseFn : Nat → List Char → Option (Ty × List Char)
   | 0, _ => none
   | f + 1, s =>
-    let u := match dropPrefix? kwUnsafe s with
-      | some r => (true, r)
-      | none => (false, s)
-    let a : Option (Abi × List Char) := match dropPrefix? "extern \"".toList u.2 with
-      | some r =>
-          let p := spanP (fun c => c != '"') r
-          match dropPrefix? "\" ".toList p.2 with
-          | some r1 => some (abiOfStr p.1, r1)
-          | none => none
-      | none => some (.rust, u.2)
-    match a with
+    match parseFnPrefix s with
     | none => none
-    | some (abi, s2) =>
-      match dropPrefix? "fn(".toList s2 with
-      | none => none
-      | some r =>
-        let ins : Option (FnIns × List Char) := match r with
-          | ')' :: _ => some (.nil, r)
-          | _ =>
+    | some (ua, r) =>
+        let ins : Option (FnIns × List Char) :=
+          if startsWithRParen r then some (.nil, r)
+          else
             match parseIn f r with
             | none => none
             | some (a, r1) =>
@@ -361,9 +380,9 @@ def parseFn : Nat → List Char → Option (Ty × List Char)
               match dropPrefix? " -> ".toList r2 with
               | some r3 =>
                   match parseTy f r3 with
-                  | some (t, r4) => some (.fnPtr is (.some t) abi u.1, r4)
+                  | some (t, r4) => some (.fnPtr is (.some t) ua.2 ua.1, r4)
                   | none => none
-              | none => some (.fnPtr is .none abi u.1, r2)
+              | none => some (.fnPtr is .none ua.2 ua.1, r2)
           | _ => none
 end
 
